@@ -177,7 +177,6 @@ pub struct Bed {
     // ---- observations for the "armed" labels
     nd_until: i64,
     frag_pending: bool,
-    ieee_frag_until: i64,
     cur_v4: Option<[u8; 4]>,
 }
 
@@ -283,7 +282,6 @@ impl Bed {
             last_rs_at: -1,
             nd_until: -1,
             frag_pending: false,
-            ieee_frag_until: -1,
             cur_v4,
         };
         let mut comps: Vec<&str> = vec![];
@@ -737,7 +735,7 @@ impl Bed {
         if self.now < self.nd_until {
             m |= S_ND;
         }
-        if self.frag_pending || self.now < self.ieee_frag_until {
+        if self.frag_pending {
             m |= S_FRAG;
         }
         if self.slaac {
@@ -1014,9 +1012,6 @@ impl Bed {
                     ctx.note(|| format!("app: udp send {} bytes to {} ({}) -> {:?}", n, dst, class, r));
                 }
                 self.note_unroutable(&dst, class);
-                if self.med == Med::Ieee && n > 60 && class == "multicast" {
-                    self.ieee_frag_until = self.now + SEC;
-                }
             }
             2 => {
                 let Some((dst, class)) = self.pick_dest(src) else { return };
